@@ -31,6 +31,7 @@ import itertools
 from specs import classes as K
 from specs import core as S
 from vlib import codec
+from props import containers  # noqa: F401  (registers its checks before the worker pool is forked)
 from vlib import domains as D
 from vlib.core import bad, check, ok
 
@@ -458,4 +459,5 @@ def run(ctx):
     ]
     from props import dlayer
 
+    containers.run_for(ctx, "C05")
     dlayer.run(ctx, "C05")
